@@ -55,6 +55,10 @@ type wfState struct {
 	// registered (known deviation: MarkedObjectKeyableRule.OnChildContainerEnded does not call MarkObject).
 	chunkedKeyUnmarked bool
 	lastWasChunked     bool
+	// lateUTF8 relaxes a third: string-like chunk data is judged only when the chunk is complete (the latest
+	// point at which invalid UTF-8 can be noticed). Used to recognise the validator's deferred verdict: it waits
+	// for as many bytes as the lead byte of a split character promises before it looks at them.
+	lateUTF8 bool
 }
 
 func (s *wfState) keyRefOK(oc string) bool {
@@ -267,7 +271,7 @@ func (s *wfState) step(e Ev) bool {
 			f.chunkData = append(f.chunkData, e.Data...)
 			if f.validated {
 				// a data event is rejected as soon as the bytes so far cannot be the beginning of valid UTF-8
-				if !utf8PrefixOK(f.chunkData, f.remaining == 0) {
+				if (!s.lateUTF8 || f.remaining == 0) && !utf8PrefixOK(f.chunkData, f.remaining == 0) {
 					return false
 				}
 			}
@@ -605,6 +609,28 @@ func wfCheckRelaxed(es []Ev, maxArray uint64, maxIdent int, floatKeyRef, chunked
 		}
 	}
 	return -1, len(s.stack) > 0 && s.top().kind == "terminal"
+}
+
+// wfLateUTF8: is the only difference between the recogniser (first invalid event = want) and the validator
+// (rejected at rej) that invalid UTF-8 inside one chunk was noticed a few data events late, but no later
+// than the end of that chunk?
+func wfLateUTF8(es []Ev, rej, want int, maxArray uint64, maxIdent int) bool {
+	if want < 0 || rej <= want || rej >= len(es) {
+		return false
+	}
+	for i := want; i <= rej; i++ {
+		if es[i].K != "ad" {
+			return false
+		}
+	}
+	s := newWF(maxArray, maxIdent)
+	s.lateUTF8 = true
+	for i, e := range es {
+		if !s.step(e) {
+			return i >= rej
+		}
+	}
+	return false
 }
 
 var _ = big.NewInt
